@@ -151,6 +151,7 @@ type trEnv struct {
 	p      *pkgInfo
 	names  map[string]string // Go source text of a sub-expression -> Lean term
 	failed *[]string
+	ints   bool // expressions are over ℤ (subtraction allowed)
 }
 
 func (e trEnv) fail(what string) string {
@@ -194,6 +195,9 @@ func (e trEnv) nat(x ast.Expr) string {
 		}
 		if t.Op == token.MUL {
 			return "(" + e.nat(t.X) + " * " + e.nat(t.Y) + ")"
+		}
+		if t.Op == token.SUB && e.ints {
+			return "(" + e.nat(t.X) + " - " + e.nat(t.Y) + ")"
 		}
 	case *ast.CallExpr:
 		// constant-valued conversions such as int64(27)
@@ -284,7 +288,7 @@ func main() {
 	if err := os.MkdirAll(outDir, 0o755); err != nil {
 		panic(err)
 	}
-	gens := []func() *leanFile{genRlp}
+	gens := []func() *leanFile{genRlp, genSecp}
 	for _, g := range gens {
 		l := g()
 		if err := l.write(outDir); err != nil {
